@@ -417,4 +417,194 @@ theorem densify_ring_closed (len : Len) (mx : Rat) (cs : List Pt) (h : SM.isClos
     rw [e.1, e.2]; exact h
   simp [SM.close, this]
 
+/-! ### piece lengths and total length (needs `len` homogeneous along a segment) -/
+
+/-- homogeneity of the length along a segment: the sub-segment between parameters `s ≤ t` has
+length `(t − s) · len a b` (true of the Euclidean length; "collinear pieces add up"). -/
+def LenLerp (len : Len) : Prop :=
+  ∀ (a b : Pt) (s t : Rat), s ≤ t → len (lerp a b s) (lerp a b t) = (t - s) * len a b
+
+private theorem densifyLine_eq_map (len : Len) (a b : Pt) (mx : Rat) (hn : 0 < numSegments len a b mx) :
+    densifyLine len a b mx = (List.range' 0 (numSegments len a b mx + 1)).map
+      (fun (k : Nat) => lerp a b ((k : Rat) / (numSegments len a b mx : Rat))) := by
+  obtain ⟨m, hm⟩ : ∃ m, numSegments len a b mx = m + 1 := ⟨numSegments len a b mx - 1, by omega⟩
+  have hne : ((m + 1 : Nat) : Rat) ≠ 0 := by positivity
+  unfold densifyLine densifyBetween
+  rw [hm]
+  have e1 : List.range' 0 (m + 1 + 1) = 0 :: (List.range' 1 m ++ [1 + m]) := by
+    rw [List.range'_succ, List.range'_concat]; simp
+  rw [e1]
+  simp only [List.map_cons, List.map_append, List.map_nil, Nat.add_sub_cancel]
+  have h0 : lerp a b (((0 : Nat) : Rat) / ((m + 1 : Nat) : Rat)) = a := by simp [lerp_zero]
+  have h1 : lerp a b (((1 + m : Nat) : Rat) / ((m + 1 : Nat) : Rat)) = b := by
+    have : ((1 + m : Nat) : Rat) / ((m + 1 : Nat) : Rat) = 1 := by
+      rw [Nat.add_comm 1 m]; exact div_self hne
+    rw [this, lerp_one]
+  rw [h0, h1]
+  simp only [List.cons_append, List.nil_append, List.cons.injEq, true_and,
+    List.append_cancel_right_eq]
+  apply List.map_congr_left
+  intro k _
+  congr 1
+  ring
+
+/-- [T] densifying a Line: no piece is longer than `max`. -/
+theorem densify_line_pieces {len : Len} (hl : LenAx len) (hh : LenLerp len) (a b : Pt) (mx : Rat)
+    (hmx : 0 < mx) : ∀ s ∈ segs (densifyLine len a b mx), len s.1 s.2 ≤ mx := by
+  by_cases h0 : len a b = 0
+  · intro s hs
+    simp only [densifyLine, densify_between_zero len a b mx h0, List.append_nil, List.singleton_append,
+      segs, List.mem_singleton] at hs
+    rw [hs, h0]; exact le_of_lt hmx
+  · have hpos : 0 < len a b := lt_of_le_of_ne (hl.nonneg a b) (Ne.symm h0)
+    obtain ⟨hn, hb, _⟩ := densify_piece_bound hl a b mx hmx hpos
+    have hnq : (0 : Rat) < (numSegments len a b mx : Rat) := by exact_mod_cast hn
+    intro s hs
+    rw [densifyLine_eq_map len a b mx hn, segs_map_range'] at hs
+    obtain ⟨k, _, rfl⟩ := List.mem_map.1 hs
+    simp only
+    rw [hh a b _ _ (by push_cast; rw [div_le_div_iff_of_pos_right hnq]; linarith)]
+    have : ((k + 1 : Nat) : Rat) / (numSegments len a b mx : Rat) - (k : Rat) / (numSegments len a b mx : Rat)
+        = 1 / (numSegments len a b mx : Rat) := by push_cast; field_simp; ring
+    rw [this, one_div, inv_mul_eq_div]
+    exact hb
+
+/-- [T] densifying a Line leaves its length unchanged. -/
+theorem densify_line_length {len : Len} (hl : LenAx len) (hh : LenLerp len) (a b : Pt) (mx : Rat)
+    (hmx : 0 < mx) : sumLen len (segs (densifyLine len a b mx)) = len a b := by
+  by_cases h0 : len a b = 0
+  · simp [densifyLine, densify_between_zero len a b mx h0, segs, sumLen]
+  · have hpos : 0 < len a b := lt_of_le_of_ne (hl.nonneg a b) (Ne.symm h0)
+    obtain ⟨hn, _, _⟩ := densify_piece_bound hl a b mx hmx hpos
+    have hnq : (0 : Rat) < (numSegments len a b mx : Rat) := by exact_mod_cast hn
+    rw [densifyLine_eq_map len a b mx hn, segs_map_range']
+    rw [sumLen_map_const len (len a b / (numSegments len a b mx : Rat))]
+    · simp only [List.length_map, List.length_range']
+      field_simp
+    · intro s hs
+      obtain ⟨k, _, rfl⟩ := List.mem_map.1 hs
+      simp only
+      rw [hh a b _ _ (by push_cast; rw [div_le_div_iff_of_pos_right hnq]; linarith)]
+      push_cast; field_simp; ring
+
+private theorem segs_densifyLS_cons2 (len : Len) (a b : Pt) (rest : List Pt) (mx : Rat) :
+    segs (densifyLS len (a :: b :: rest) mx) =
+      segs (densifyLine len a b mx) ++ segs (densifyLS len (b :: rest) mx) := by
+  obtain ⟨Y, hY⟩ := densifyLS_head len b rest mx
+  rw [densifyLS_cons2, hY]
+  have e : a :: (densifyBetween len a b mx ++ b :: Y) = (a :: densifyBetween len a b mx) ++ b :: Y := rfl
+  rw [e, segs_join]
+  rfl
+
+/-- [T] `densify(max)` on a LineString produces no segment longer than `max`. -/
+theorem densify_ls_pieces {len : Len} (hl : LenAx len) (hh : LenLerp len) (mx : Rat) (hmx : 0 < mx) :
+    ∀ cs : List Pt, ∀ s ∈ segs (densifyLS len cs mx), len s.1 s.2 ≤ mx
+  | [], s, hs => by simp [densifyLS, segs] at hs
+  | [a], s, hs => by simp [densifyLS, segs, densifySegs] at hs
+  | a :: b :: rest, s, hs => by
+    rw [segs_densifyLS_cons2, List.mem_append] at hs
+    rcases hs with hs | hs
+    · exact densify_line_pieces hl hh a b mx hmx s hs
+    · exact densify_ls_pieces hl hh mx hmx (b :: rest) s hs
+
+/-- [T] `densify(max)` leaves the total length of a LineString unchanged. -/
+theorem densify_ls_length {len : Len} (hl : LenAx len) (hh : LenLerp len) (mx : Rat) (hmx : 0 < mx) :
+    ∀ cs : List Pt, lsLength len (densifyLS len cs mx) = lsLength len cs
+  | [] => by simp [densifyLS]
+  | [a] => by simp [densifyLS, segs, densifySegs, lsLength]
+  | a :: b :: rest => by
+    have ih := densify_ls_length hl hh mx hmx (b :: rest)
+    unfold lsLength at ih ⊢
+    rw [segs_densifyLS_cons2, sumLen_append, densify_line_length hl hh a b mx hmx, ih]
+    simp [segs, sumLen]
+
+/-! ### the deprecated `line_interpolate_point` -/
+
+private theorem lerp_div (len : Len) (a b : Pt) (x : Rat) :
+    lerp a b (x / len a b) = pointAtDistanceBetween len a b x := by
+  apply Pt.ext' <;> simp only [lerp, pointAtDistanceBetween] <;> ring
+
+private theorem lipGo_onSegs {len : Len} (hl : LenAx len) (fl : Rat) :
+    ∀ (ss : List (Pt × Pt)) (cum : Rat), cum ≤ fl → fl - cum ≤ sumLen len ss → ss ≠ [] →
+      ∃ p, lipGo len fl ss cum = some p ∧ OnSegs len ss (fl - cum) p
+  | [], _, _, _, h => absurd rfl h
+  | (a, b) :: rest, cum, h0, h1, _ => by
+    simp only [lipGo]
+    by_cases hge : cum + len a b ≥ fl
+    · rw [if_pos hge]
+      by_cases hz : len a b = 0
+      · rw [if_pos hz]
+        refine ⟨a, by simp [lineInterpolatePoint, lerp_zero], Or.inl ⟨by linarith, by linarith, ?_⟩⟩
+        have : fl - cum = 0 := by linarith
+        rw [this, pdb_zero]
+      · rw [if_neg hz]
+        have hpos : 0 < len a b := lt_of_le_of_ne (hl.nonneg a b) (Ne.symm hz)
+        have t0 : 0 ≤ (fl - cum) / len a b := div_nonneg (by linarith) (le_of_lt hpos)
+        have t1 : (fl - cum) / len a b ≤ 1 := by rw [div_le_iff₀ hpos]; linarith
+        refine ⟨lerp a b ((fl - cum) / len a b), by simp [lineInterpolatePoint, t0, t1],
+          Or.inl ⟨by linarith, by linarith, ?_⟩⟩
+        exact lerp_div len a b _
+    · rw [if_neg hge]
+      have hlt : cum + len a b < fl := not_le.1 hge
+      simp only [sumLen] at h1
+      have hne : rest ≠ [] := by
+        intro e; subst e; simp only [sumLen] at h1; linarith
+      obtain ⟨p, hp, hon⟩ := lipGo_onSegs hl fl rest (cum + len a b) (le_of_lt hlt) (by linarith) hne
+      refine ⟨p, hp, Or.inr ?_⟩
+      have e : fl - cum - len a b = fl - (cum + len a b) := by ring
+      rw [e]; exact hon
+
+/-- [T] the deprecated `LineString::line_interpolate_point(f)` (as repaired by the `fix:` commit)
+returns the same point of the plane as `point_at_ratio_from_start(line, f)`, for every line
+string — empty, single coordinate, repeated vertices, zero total length — and every fraction. -/
+theorem deprecated_eq_ratio {len : Len} (hl : LenAx len) (cs : List Pt) (f : Rat) :
+    lsLineInterpolatePoint len cs f = lsPointAtRatioFromStart len cs f := by
+  have hL : 0 ≤ lsLength len cs := sumLen_nonneg hl _
+  -- reduce the ratio form to the clamped fraction
+  have hclamp : lsPointAtRatioFromStart len cs f =
+      lsPointAtRatioFromStart len cs (if 0 ≤ f ∧ f ≤ 1 then f else if f < 0 then 0 else 1) := by
+    by_cases h0 : f < 0
+    · have : ¬ (0 ≤ f ∧ f ≤ 1) := fun h => absurd h.1 (not_le.2 h0)
+      rw [if_neg this, if_pos h0, (ls_ratio_clamp hl cs f).1 (le_of_lt h0), (ls_ratio_clamp hl cs 0).1 (le_refl _)]
+    · by_cases h1 : f ≤ 1
+      · rw [if_pos ⟨not_lt.1 h0, h1⟩]
+      · have : ¬ (0 ≤ f ∧ f ≤ 1) := fun h => h1 h.2
+        rw [if_neg this, if_neg h0, (ls_ratio_clamp hl cs f).2 (le_of_lt (not_le.1 h1)),
+          (ls_ratio_clamp hl cs 1).2 (le_refl _)]
+  rw [hclamp]
+  generalize hf' : (if 0 ≤ f ∧ f ≤ 1 then f else if f < 0 then 0 else 1) = f'
+  have hf0 : 0 ≤ f' ∧ f' ≤ 1 := by
+    rw [← hf']
+    by_cases h : 0 ≤ f ∧ f ≤ 1
+    · rw [if_pos h]; exact h
+    · rw [if_neg h]; by_cases h0 : f < 0
+      · rw [if_pos h0]; exact ⟨le_refl _, by norm_num⟩
+      · rw [if_neg h0]; exact ⟨by norm_num, le_refl _⟩
+  unfold lsLineInterpolatePoint
+  simp only [hf']
+  by_cases hne : segs cs = []
+  · rw [hne]
+    match cs, hne with
+    | [], _ => simp [lipGo, lsPointAtRatioFromStart, lsPointAtDistanceFromStart, walk, segs]
+    | [a], _ =>
+      simp [lipGo, lsPointAtRatioFromStart, lsPointAtDistanceFromStart, segs, lsLength, sumLen,
+        lineInterpolatePoint, lerp_zero]
+  · have hd0 : 0 ≤ lsLength len cs * f' := mul_nonneg hL hf0.1
+    have hd1 : lsLength len cs * f' ≤ lsLength len cs := by nlinarith [hf0.2]
+    obtain ⟨p, hp, hon⟩ := lipGo_onSegs hl (lsLength len cs * f') (segs cs) 0 hd0
+      (by rw [sub_zero]; exact hd1) hne
+    obtain ⟨q, hq, hon'⟩ := ls_distance_onSegs hl cs (lsLength len cs * f') hne hd0 hd1
+    rw [hp]
+    unfold lsPointAtRatioFromStart
+    rw [mul_comm f', hq]
+    rw [sub_zero] at hon
+    rw [onSegs_unique hl _ _ p q (chain_segs cs) hon hon']
+
+/-- [T] witness of the defect repaired by the `fix:` commit: with the *pinned* loop a leading
+repeated coordinate at fraction 0 gives `None` although the ratio form gives the coordinate. -/
+theorem deprecated_pinned_witness :
+    lsLineInterpolatePointPinned (fun a b => rabs (a.x - b.x) + rabs (a.y - b.y))
+      [⟨0, 0⟩, ⟨0, 0⟩, ⟨1, 0⟩] 0 = none := by
+  simp [lsLineInterpolatePointPinned, lipGoPinned, segs, lsLength, sumLen, rabs]
+
 end Geo.Proofs.C15
